@@ -39,6 +39,21 @@ CLAIMED["C07"] = dict(
    note="Trusted: go/ssa, operand-path abstraction (node.Field[index]), callee summaries of the error cell. One known finding (receive statement ignores an error of the ok target; pinned by a test).",
    technique="SSA dataflow over evaluation events (may-set / ordering / typestate of the error cell)",
    design="4 C07")
+CLAIMED["C02"] = dict(
+   text="Static necessary conditions of cancellability, for all programs and all instants: the statement dispatcher polls the run's context before every dispatch; every interpreter cycle that evaluates script code and is not bounded by the program text passes a poll (cycle test on the CFG after deleting polling blocks); every operation a script can block on is a reflect.Select whose case 0 waits on ctx.Done() of the current record and whose chosen==0 branch raises ErrInterrupt and leaves; every context handed to script code originates from the current record / own parameter / incoming argument, never from a captured record or context.Background; ErrInterrupt is never wrapped and never overwritten outside the recover handler and the deferred-call runner (whose precedence rule is checked). The length of the bound and time inside one host call are NOT decided.",
+   note="Trusted: go/ssa, abstract error-cell analysis. Known finding: the func-type adapter runs callbacks under context.Background (the statement's own 'known hole').",
+   technique="CFG cycle/must-pass analysis + value-origin (taint-style) analysis of context values + abstract error-cell dataflow",
+   design="4 C02")
+CLAIMED["C08"] = dict(
+   text="How break/continue/return travel is decided for all programs with an abstract interpretation of the interpreter's error cell (nil / the three control signals / interrupt / other, callee summaries refined by the node kinds an operand can be): the signals are raised only by the statement list under the matching clause and the list stops; they are consumed only by script loops (break/continue) and invocation roots (return) — every other overwrite of a pending signal is reported; all five loop handlers test the three signals, start each iteration with a nil error, leave on break, stay on continue, pass return upward; the C-style loop reaches its post expression on continue; at most one branch body of if/switch runs per path; no element of a statement/case/condition list is skipped. Which branch is taken (truthiness, equality) is value-level and NOT decided.",
+   note="Trusted: go/ssa, the error-cell abstraction and its summaries. Known finding: try clears pending break/continue/return (pinned by TestTry).",
+   technique="abstract interpretation of the error cell on SSA + CFG loop-structure rules (sibling agreement of loop handlers)",
+   design="4 C08")
+CLAIMED["C09"] = dict(
+   text="Static decision of the sequencing skeleton for all programs: every invocation root passes the deferred-call runner on every exit after its body; the runner takes the list out first, registration appends, the walk is len-1..0 by -1 over the saved list (LIFO, once), the result value is restored and a deferred call's error replaces the saved one exactly when that is nil or the return signal; try: catch is control-dependent on an error, the catch variable is bound to it before it is cleared, finally lies on every exit that can be error-free; throw always raises with the statement's position; the host receives the error cell. Together with C07.R3 (nothing is evaluated while an error is pending) and C07.R6 (arguments captured at the defer statement). Message texts are NOT decided.",
+   note="Trusted: go/ssa, error-cell abstraction. try catching control signals is recorded under C08.R2 (known finding).",
+   technique="must-pass-through / dominance rules on SSA + abstract error-cell refinement for the precedence rule",
+   design="4 C09")
 NOT_YET = "checker for this property is not built yet in this revision (see DESIGN.md section 4 for the planned static rules)"
 ALL = ["C%02d" % i for i in range(1, 21)]
 
